@@ -77,6 +77,11 @@ CHECKS.update({
          'Way/Relation.ApplyUpdatesUpTo, Updates.UpTo and Way.LineStringAt are executed on every update list up to length 3 (4 in thorough) over 0-3 children and on generated lists (0-12 children, 0-30 updates, duplicate timestamps, 1 ns neighbours, index-sorted / time-sorted / shuffled / interleaved storage) at every distinct instant, and compared with an independent model: exact state and pending list, typed out-of-range error, composability for per-child time-ordered lists, LineStringAt against apply+LineString on fully annotated ways, and the consumer path through annotate.Relations.',
          'trusted: the 60-line reference model. Negative indexes, partially annotated ways and element state after an out-of-range error are outside the statement: run, counted, not asserted.'),
 })
+CHECKS.update({
+ 'C14': ('exploration', 'exhaustive small reference graphs + stop sweeps, with goroutine-state deadlock/leak monitors and an independent reachability oracle',
+         'Every reference graph on up to 3 relations (thorough: 4, 83 521 graphs incl. all 65 536 self-loop digraphs) in three member layouts is iterated for every ordered request selection, and random graphs up to 14 relations with several versions, colliding non-relation members and missing histories; the emitted sequence is checked for duplicates, ids without history, missing requested ids and child-before-parent order (own DFS) whenever the reachable sub-graph is acyclic; Close / cancel / datasource failure after every number of Next calls must end the iteration: never-ends is decided from goroutine states (scenario goroutine blocked in Close/Next, every annotate goroutine blocked or gone, no counter moving), leaks after Close/cancel from goroutine dumps.',
+         'trusted: the DFS reference; goroutine-state classification (25 polls without movement). The Err/CompletedIndex data race on o.err is outside the statement (reported as inconclusive under -race).'),
+})
 PENDING = 'check not built yet in this revision of /verif (planned in DESIGN.md section 4); no verdict is claimed'
 
 checks, na = [], []
